@@ -102,6 +102,9 @@ type outcome struct {
 
 // peerScript installs the scripted server on c.
 func peerScript(c *vconn, s scen) {
+	if s.Peer == "silent:-1" {
+		c.stallWrites = true // silent from the very start: not even the request is taken
+	}
 	answered := false
 	c.onWritten = func(c *vconn) {
 		if answered || !bytes.Contains(c.written, []byte("\r\n\r\n")) {
@@ -511,8 +514,8 @@ func buildScenarios(t *testing.T) []scen {
 						s.CtxKind, s.CtxDeadline, s.Event, s.Place = ck, far, "cancel", "afterreturn"
 						scenList = append(scenList, s)
 					}
-					// B: silent peer
-					for j := 0; j < chunks; j++ {
+					// B: silent peer (j = -1: a peer that does not even drain the request, so Dial blocks in a WRITE)
+					for j := -1; j < chunks; j++ {
 						sil := base
 						sil.Peer = fmt.Sprintf("silent:%d", j)
 						for _, ck := range []string{"withcancel", "withdeadline"} {
